@@ -406,6 +406,11 @@ func (c *Channel) PutMessageDeferred(msg *Message, timeout time.Duration) {
 
 // TouchMessage resets the timeout for an in-flight message
 func (c *Channel) TouchMessage(clientID int64, id MessageID, clientMsgTimeout time.Duration) error {
+	// like the timeout scans: Channel.exit (write lock) must not flush and close
+	// while the message is out of the in-flight map
+	c.exitMutex.RLock()
+	defer c.exitMutex.RUnlock()
+
 	msg, err := c.popInFlightMessage(clientID, id)
 	if err != nil {
 		return err
@@ -451,6 +456,11 @@ func (c *Channel) FinishMessage(clientID int64, id MessageID) error {
 //
 //	and requeue a message (aka "deferred requeue")
 func (c *Channel) RequeueMessage(clientID int64, id MessageID, timeout time.Duration) error {
+	// like the timeout scans: Channel.exit (write lock) must not flush and close
+	// while the message is between the in-flight map and the queue / deferred map
+	c.exitMutex.RLock()
+	defer c.exitMutex.RUnlock()
+
 	// remove from inflight first
 	msg, err := c.popInFlightMessage(clientID, id)
 	if err != nil {
@@ -461,13 +471,10 @@ func (c *Channel) RequeueMessage(clientID int64, id MessageID, timeout time.Dura
 	atomic.AddUint64(&c.requeueCount, 1)
 
 	if timeout == 0 {
-		c.exitMutex.RLock()
 		if c.Exiting() {
-			c.exitMutex.RUnlock()
 			return errors.New("exiting")
 		}
 		err := c.put(msg)
-		c.exitMutex.RUnlock()
 		return err
 	}
 
